@@ -6,6 +6,7 @@ import (
 	"runtime"
 	"sort"
 	"strings"
+	"sync"
 	"time"
 
 	"github.com/smarthome-go/homescript/v3/homescript"
@@ -211,16 +212,21 @@ func RunVM(req *sb.Request, mods map[string]ast.AnalyzedProgram) (res sb.RunResu
 	res.GoroutinesBefore = runtime.NumGoroutine()
 
 	var vm hsruntime.VM
+	var repoBuf string
+	var repoMu sync.Mutex
 	initPanic := func() (p string) {
 		defer func() {
 			if r := recover(); r != nil {
 				p = fmt.Sprint(r)
 			}
 		}()
-		vm = hsruntime.NewVM(compiled, VMExec{H: host}, &ctx, &cancel, homescript.TestingVmScopeAdditions(), lim)
+		vm = hsruntime.NewVM(compiled, VMExec{TestingVmExecutor: homescript.TestingVmExecutor{PrintBuf: &repoBuf, PintBufMutex: &repoMu}, H: host}, &ctx, &cancel, homescript.TestingVmScopeAdditions(), lim)
 		return ""
 	}()
 	fill := func() {
+		repoMu.Lock()
+		res.RepoOutput = repoBuf
+		repoMu.Unlock()
 		rec.mu.Lock()
 		res.Writes = append([]string{}, rec.Writes...)
 		res.Triggers = append([]sb.TriggerCall{}, rec.Triggers...)
